@@ -120,7 +120,7 @@ RULE = (
     "the rotated items), walker insert/delete/replace, change_focus/shift_focus/make_cursor_visible/scroll keys/wheel at the size it was last rendered with "
     "(ops 'lb'/'probe' address the j-th ListBox / probe), probe set_value, Scrollable.set_scrollpos, ScrollBar side/width; drop all held canvases + gc.collect(1). ~20% of "
     "the ops are not followed by the comparison render; 1 in 7 list elements is a correlated pattern (change "
-    "without redraw / other view / change again; view A, view B, change, view A; three changes of one widget). "
+    "without redraw / other view / change again; view A, view B, change, view A; three changes of one widget; a node rendered on its own, another view, a change of that node). "
     "Oracle after every op: root rendering of A == B (content runs, cursor), rows equal, confirmed on the same "
     "tree; every held canvas (and every finalized canvas below it) unchanged; canvas mutators raise. Non-trivial: a mutation of a strict descendant of the "
     "root is followed by the comparison render of the root at a (size, focus) that was rendered before the "
@@ -1632,6 +1632,10 @@ _pattern = st.one_of(
     # a ListBox scrolled twice in a row by size-aware methods / keys / wheel (mutators 6..11 of its table)
     st.tuples(st.integers(0, 3), st.integers(6, 11), _arg, _arg, st.integers(6, 11), _arg, _arg).map(
         lambda t: [["lb", t[0], t[1], t[2], t[3]], ["lb", t[0], t[4], t[5], t[6]]]),
+    # a node displayed on its own (a canvas of its own in the cache, released at the next root rendering under the
+    # 'last' policy), another view, then a change of that same node
+    st.tuples(_n, _si, st.booleans(), _vw, _ag3).map(
+        lambda t: [["render", t[0], t[1], t[2]], ["view", *t[3]], ["mut", t[0], *t[4]]]),
 )
 
 
